@@ -131,7 +131,8 @@ def run_case(data):
         else:
             sid = w.next_local_id()
         op = ch.weighted([(6, 'headers'), (5, 'data'), (2, 'end'), (2, 'push'), (1, 'prioritize'), (2, 'altsvc'),
-                          (1, 'rst'), (4, 'peer-open'), (1, 'peer-push'), (1, 'peer-end')])
+                          (1, 'rst'), (4, 'peer-open'), (1, 'peer-push'), (1, 'peer-end'), (2, 'peer-info'),
+                          (1, 'bad-priority')])
         o = None
         if op == 'peer-open':
             if client:
@@ -145,6 +146,28 @@ def run_case(data):
                 continue
             res, o = w.recv_push(ch.pick(sorted(cands)), w.next_peer_id())
             o = None
+        elif op == 'peer-info':
+            # an interim response from the server changes nothing about what the client may still send
+            cands = [x for x in known if m.get(x).local and x % 2 == 1 and m.get(x).can_recv() and not m.get(x).r_final]
+            if not client or not cands:
+                continue
+            res, o = w.recv_headers(ch.pick(sorted(cands)), 'info', False)
+            o = None
+            r.labels.add('peer-informational')
+        elif op == 'bad-priority':
+            # a request refused for its priority arguments (checked before anything else): the stream it would
+            # have opened does not exist afterwards
+            if not client or m.classify(sid) != 'idle' or m.send_headers_verdict(sid, 'final', False)[0] != M.PERMIT:
+                continue
+            kw = ch.pick([{'priority_weight': 0}, {'priority_weight': 257}, {'priority_depends_on': sid}])
+            o = w.s.call('send_headers', sid, w.final_list(sid, True), **kw)
+            r.step('send_headers with invalid priority', sid, kw, o.brief())
+            if o.ok:
+                w.violate('send:headers:invalid-priority-accepted', repr(kw))
+                break
+            if o.out:
+                w.violate('send:headers:invalid-priority:refused-call-emitted', o.out.hex()[:40])
+            r.labels.add('bad-priority')
         elif op == 'peer-end':
             cands = [x for x in known if m.get(x).state in (M.OPEN,) and not m.get(x).local and m.get(x).r_final]
             if not cands:
